@@ -101,8 +101,14 @@ func parseConf(t reflect.Type, data interface{}) (name string, fillConf func(con
 }
 
 func toStringKeyMap(data interface{}) (out map[string]interface{}, err error) {
-	out, ok := data.(map[string]interface{})
-	if ok {
+	if strKeyData, ok := data.(map[string]interface{}); ok {
+		// Return a copy: the caller removes the plugin type key from the result, but the same
+		// data is decoded again for every product of a plugin factory (for example nested
+		// schedules of a composite created per instance).
+		out = make(map[string]interface{}, len(strKeyData))
+		for key, val := range strKeyData {
+			out[key] = val
+		}
 		return
 	}
 	untypedKeyData, ok := data.(map[interface{}]interface{})
